@@ -143,8 +143,21 @@ fn all_subsets(n: usize) -> Vec<Vec<usize>> {
 }
 fn random_flips(rng: &mut Rng64, k: usize) -> Vec<bool> { (0..k).map(|_| rng.bool()).collect() }
 
-fn ops_for(b: &str, n: usize, partials: &[Vec<(usize, bool)>], subsets: &[Vec<usize>], rng: &mut Rng64, out: &mut Out,
-           p_partial: (u64, u64), p_subset: (u64, u64), all_flips: bool) {
+/// all orders of a list (k! of them; k <= 4 here)
+fn permutations<T: Clone>(v: &[T]) -> Vec<Vec<T>> {
+    if v.len() <= 1 { return vec![v.to_vec()]; }
+    let mut res = vec![];
+    for i in 0..v.len() {
+        let mut rest = v.to_vec();
+        let x = rest.remove(i);
+        for mut p in permutations(&rest) { p.insert(0, x.clone()); res.push(p); }
+    }
+    res
+}
+
+/// everything about one operand over a small universe: every variable, every partial assignment in EVERY order
+/// (plus disguised presentations with overwritten literals), every variable subset in EVERY order, every coin list
+fn ops_for(b: &str, n: usize, partials: &[Vec<(usize, bool)>], subsets: &[Vec<usize>], rng: &mut Rng64, out: &mut Out) {
     let bs = s(b);
     for x in 0..n {
         for v in ["0", "1"] {
@@ -157,13 +170,11 @@ fn ops_for(b: &str, n: usize, partials: &[Vec<(usize, bool)>], subsets: &[Vec<us
         run("C06.vall", &[bs.clone(), x.to_string()], out);
     }
     for p in partials {
-        if !rng.chance(p_partial.0, p_partial.1) { continue; }
-        run("C06.select", &[bs.clone(), fmt_lits(p)], out);
-        run("C06.restrict", &[bs.clone(), fmt_lits(p)], out);
-        if !p.is_empty() {
-            let mut q = p.clone(); q.reverse();
+        for q in permutations(p) {
             run("C06.select", &[bs.clone(), fmt_lits(&q)], out);
             run("C06.restrict", &[bs.clone(), fmt_lits(&q)], out);
+        }
+        if !p.is_empty() && rng.chance(1, 3) {
             let d = disguise(rng, p);
             run("C06.select", &[bs.clone(), fmt_lits(&d)], out);
             let d = disguise(rng, p);
@@ -171,26 +182,14 @@ fn ops_for(b: &str, n: usize, partials: &[Vec<(usize, bool)>], subsets: &[Vec<us
         }
     }
     for vs in subsets {
-        if !rng.chance(p_subset.0, p_subset.1) { continue; }
-        let mut orders: Vec<Vec<usize>> = vec![vs.clone()];
-        if vs.len() > 1 {
-            let mut r = vs.clone(); r.reverse(); orders.push(r);
-            let mut r = vs.clone(); shuffle(rng, &mut r); orders.push(r);
-        }
+        let orders = permutations(vs);
         for o in &orders {
             run("C06.pick", &[bs.clone(), fmt_usizes(o)], out);
         }
-        let o = rng.pick(&orders).clone();
-        if all_flips {
-            for m in 0..(1usize << vs.len()) {
-                let fl: Vec<bool> = (0..vs.len()).map(|k| (m >> k) & 1 == 1).collect();
-                run("C06.pickr", &[bs.clone(), fmt_usizes(&o), fmt_bools(&fl)], out);
-            }
-        } else {
-            for _ in 0..2 {
-                let fl = random_flips(rng, vs.len());
-                run("C06.pickr", &[bs.clone(), fmt_usizes(&o), fmt_bools(&fl)], out);
-            }
+        for m in 0..(1usize << vs.len()) {
+            let o = rng.pick(&orders).clone();
+            let fl: Vec<bool> = (0..vs.len()).map(|k| (m >> k) & 1 == 1).collect();
+            run("C06.pickr", &[bs.clone(), fmt_usizes(&o), fmt_bools(&fl)], out);
         }
     }
 }
@@ -199,23 +198,57 @@ pub fn gen(tier: Tier, rng: &mut Rng64, out: &mut Out) {
     let thorough = tier == Tier::Thorough;
     // the coin convention of `CoinRng` is re-validated on every run
     for t in ["0", "1", "01", "10", "0011010111", "1111100000"] { run("C06.coin", &[s(t)], out); }
-    // --- exhaustive small universes: every function over n <= 3 variables
+    // --- exhaustive small universes (both tiers): every function over n <= 3 variables x every partial
+    //     assignment in every order x every variable subset in every order x every coin list
     for n in 0..=3usize {
         let count = 1u64 << (1u64 << n);
         let partials = all_partials(n);
         let subsets = all_subsets(n);
         for t in 0..count {
             let b = fmt_bdd(&bdd_of_tt(n, &tt_from_index(n, t)));
-            let full = thorough || n < 3;
-            ops_for(&b, n, &partials, &subsets, rng, out,
-                    if full { (1, 1) } else { (1, 4) }, if full { (1, 1) } else { (1, 2) }, full);
+            ops_for(&b, n, &partials, &subsets, rng, out);
         }
     }
-    // --- random larger operands (shared sub-diagrams, skipped levels)
+    // --- thorough: a sample of the functions over 4 variables with the same treatment
+    if thorough {
+        let partials = all_partials(4);
+        let subsets = all_subsets(4);
+        for _ in 0..400 {
+            let b = fmt_bdd(&bdd_of_tt(4, &tt_from_index(4, rng.below(65536))));
+            ops_for(&b, 4, &partials, &subsets, rng, out);
+        }
+    }
+    // --- repeated variables in the pick list (the slice denotes a set), adjacent and NON-adjacent repeats:
+    //     every list of length 2..4 with a repetition; all of them over n <= 2, three fixed ones + a sample over n = 3
+    for n in 1..=3usize {
+        let count = 1u64 << (1u64 << n);
+        let mut lists: Vec<Vec<usize>> = vec![];
+        for a in 0..n { for b in 0..n {
+            lists.push(vec![a, b]);
+            for c in 0..n {
+                lists.push(vec![a, b, c]);
+                for d in 0..n { lists.push(vec![a, b, c, d]); }
+            }
+        } }
+        lists.retain(|l| { let mut d = l.clone(); d.sort(); d.dedup(); d.len() < l.len() });
+        let fixed: Vec<Vec<usize>> = vec![vec![0, 1, 0], vec![2, 0, 2, 1], vec![1, 2, 1, 0], vec![2, 2], vec![1, 0, 0, 1]];
+        for t in 0..count {
+            let b = fmt_bdd(&bdd_of_tt(n, &tt_from_index(n, t)));
+            for l in &lists {
+                let always = n < 3 || fixed.contains(l);
+                if !always && !thorough && !rng.chance(1, 10) { continue; }
+                run("C06.pick", &[b.clone(), fmt_usizes(l)], out);
+                let fl = random_flips(rng, l.len());
+                run("C06.pickr", &[b.clone(), fmt_usizes(l), fmt_bools(&fl)], out);
+            }
+        }
+    }
+    // --- random larger operands (shared sub-diagrams, skipped levels), some of them valid but non-canonical
     let rounds = if thorough { 30000 } else { 700 };
     for _ in 0..rounds {
         let n = 4 + rng.below(3) as usize;
-        let bdd = random_bdd(rng, n);
+        let mut bdd = random_bdd(rng, n);
+        if rng.chance(1, 6) { bdd = noncanon_variant(rng, &bdd); }
         let b = fmt_bdd(&bdd);
         // a handful of random partial assignments and subsets
         for _ in 0..3 {
@@ -226,6 +259,7 @@ pub fn gen(tier: Tier, rng: &mut Rng64, out: &mut Out) {
             let d = disguise(rng, &p);
             run("C06.restrict", &[b.clone(), fmt_lits(&d)], out);
             let mut vs: Vec<usize> = (0..n).filter(|_| rng.chance(2, 5)).collect();
+            if !vs.is_empty() && rng.chance(1, 4) { let extra = *rng.pick(&vs); vs.push(extra); }
             shuffle(rng, &mut vs);
             run("C06.pick", &[b.clone(), fmt_usizes(&vs)], out);
             let fl = random_flips(rng, vs.len());
@@ -239,6 +273,41 @@ pub fn gen(tier: Tier, rng: &mut Rng64, out: &mut Out) {
         run("C06.vpickr", &[b.clone(), x.to_string(), s(v)], out);
         run("C06.vex", &[b.clone(), x.to_string()], out);
         run("C06.vall", &[b.clone(), x.to_string()], out);
+    }
+    // --- too few coins: `CoinRng` answers `false` when its list is exhausted (the model's `drawCoin` too)
+    for _ in 0..(if thorough { 400 } else { 40 }) {
+        let n = 2 + rng.below(3) as usize;
+        let b = fmt_bdd(&random_bdd(rng, n));
+        let vs: Vec<usize> = (0..n).collect();
+        let k = rng.below(n as u64) as usize;
+        let fl = random_flips(rng, k);
+        run("C06.pickr", &[b.clone(), fmt_usizes(&vs), fmt_bools(&fl)], out);
+    }
+    // --- separate stream: variables outside the variable set. The only claims: the quantifier / pick family
+    //     refuses by panic (`check_flip_bounds`), `restrict` ignores them. (`var_select`, `select`, `var_pick`
+    //     with an index ABOVE `num_vars` do not terminate and are kept out of every stream; `var_pick` with
+    //     index = `num_vars` terminates in its inner `var_select` and then panics.)
+    for _ in 0..(if thorough { 600 } else { 60 }) {
+        let n = rng.below(5) as usize;
+        let b = fmt_bdd(&random_bdd(rng, n));
+        let big = n + rng.below(4) as usize;
+        run("C06.vex", &[b.clone(), big.to_string()], out);
+        run("C06.vall", &[b.clone(), big.to_string()], out);
+        run("C06.vpick", &[b.clone(), n.to_string()], out);
+        run("C06.vpickr", &[b.clone(), n.to_string(), s("1")], out);
+        let mut vs: Vec<usize> = (0..n).filter(|_| rng.bool()).collect();
+        vs.push(big);
+        shuffle(rng, &mut vs);
+        run("C06.pick", &[b.clone(), fmt_usizes(&vs)], out);
+        let fl = random_flips(rng, vs.len());
+        run("C06.pickr", &[b.clone(), fmt_usizes(&vs), fmt_bools(&fl)], out);
+        let mut p: Vec<(usize, bool)> = vec![];
+        for x in 0..n { if rng.chance(1, 3) { p.push((x, rng.bool())); } }
+        p.push((big, rng.bool()));
+        p.push((big + 40, rng.bool()));
+        shuffle(rng, &mut p);
+        run("C06.restrict", &[b.clone(), fmt_lits(&p)], out);
+        run("C06.vres", &[b.clone(), big.to_string(), s("1")], out);
     }
 }
 
